@@ -16,7 +16,7 @@ RULE = ('one run = 1-4 generated HttpProxyBasePlugin subclasses whose hooks (bef
         'headers each call must see), the expected connect target, origin request and client response; '
         'non-trivial = some hook does something other than pass, or the connection does not end normally; '
         'distinct = distinct event-log digests')
-PROBES = ['n1', 'n2', 'n3', 'n4', 'auth', 'modify', 'drop_before_connect', 'drop_request', 'reject_before_connect',
+PROBES = ['unauthenticated_connection', 'n1', 'n2', 'n3', 'n4', 'auth', 'modify', 'drop_before_connect', 'drop_request', 'reject_before_connect',
           'reject_request', 'raise', 'dns_override', 'chunk_drop', 'access_log_stop', 'connect_method', 'followup',
           'client_abort', 'client_abort_mid_request', 'upstream_abort', 'upstream_refused', 'lifecycle_checked',
           'followup_drop']
@@ -156,8 +156,23 @@ def run_one(tape: Any, cfg: Dict[str, Any], forbid: FrozenSet[str] = frozenset()
                 body = b'B' * tape.draw(30, 'bodylen') if tape.coin(0.4, 'post') else b''
                 req = ((b'POST' if body else b'GET') + b' http://' + hp + b'/r0 HTTP/1.1\r\nHost: ' + hp + b'\r\nX-Keep: yes\r\n'
                        + authline + (b'Content-Length: %d\r\n' % len(body) if body else b'') + b'\r\n' + body)
+            # with authentication on, some connections come without credentials: the authentication plugin, which runs ahead of
+            # every user plugin, rejects them with its 407 and no request-handling hook of a user plugin runs
+            unauth = auth and ending == 'normal' and g.feature('unauthenticated_connection', 0.3)
+            if unauth:
+                w.probe('unauthenticated_connection')
+                req = req.replace(authline, b'')
+                nfollow = 0
+                cn['nfollow'] = 0
+                nontrivial = True
             cn['req'] = req
             exp = expect_first(tables, N, is_connect)
+            if unauth:
+                from proxy.http.responses import PROXY_AUTH_FAILED_RESPONSE_PKT
+                a407 = h11_parse_responses(bytes(PROXY_AUTH_FAILED_RESPONSE_PKT), True, [b'GET'])['responses'][0]
+                exp = {'connect': False, 'forward': False, 'raised': False, 'hcr_checked': True, 'counts': {}, 'buc_calls': [],
+                       'hcr_calls': [], 'dns_calls': [], 'ip': '10.0.0.1', 'stage': 'auth', 'marks': set(),
+                       'reject': (a407['status'], a407.get('reason'), None, a407['body'])}
             cn['exp'] = exp
             cn['fexp'] = []
             if ending == 'mid_request':
